@@ -228,6 +228,7 @@ func checkC10(ctx *Ctx) {
 			runC10(ctx, jobs[i].g, jobs[i].buf, jobs[i].tagged)
 		}
 	})
+	streamLineage(ctx)
 	// tasks with two outputs: the audit file of *each* output lists all outputs of the task
 	// ... and outputs outside the working directory (paths with ../): the record names the declared paths
 	up := fmt.Sprintf("../c10up_%d/a.txt", os.Getpid())
@@ -262,6 +263,45 @@ func checkC10(ctx *Ctx) {
 			}
 		}
 		os.RemoveAll(dir)
+	}
+}
+
+// a streaming edge inside the lineage: producer -> {os:} -> consumer (ends well after the producer, so that the
+// producer's record is complete when the consumer links it: the other order is listed finding F15 of C17) -> ordinary
+// task; the record of the final file contains the whole chain back to the source
+func streamLineage(ctx *Ctx) {
+	d := &Desc{Name: "c10stream", Max: 4, Nodes: []Node{{Name: "src", Kind: "filesource", Paths: []string{"s.txt"}},
+		{Name: "prod", Kind: "proc", Cmd: "( cat {i:in} > {os:out} )", Outs: map[string]string{"out": "{i:in}.stream"}},
+		{Name: "cons", Kind: "proc", Cmd: "( cat {i:in} > {o:out} ; sleep 0.5 )", Outs: map[string]string{"out": "{i:in}.copy"}},
+		{Name: "last", Kind: "proc", Cmd: "( cat {i:in} > {o:out} )", Outs: map[string]string{"out": "{i:in}.final"}}},
+		Edges: []Edge{{From: "src.out", To: "prod.in"}, {From: "prod.out", To: "cons.in"}, {From: "cons.out", To: "last.in"}}}
+	rr := RunWorkflow(d, RunOpts{Pre: map[string]string{"s.txt": "x\n"}, Timeout: 20e9})
+	defer os.RemoveAll(rr.Dir)
+	ctx.Res.Eval("lineage through a streaming edge", true, "stream-lineage")
+	ctx.Res.Count("streaming-edge-lineage")
+	if rr.Exit != 0 {
+		ctx.Res.Disagree(Violation{What: "streaming lineage workflow failed: " + firstLine(rr.Stderr), Witness: "stream-lineage"})
+		return
+	}
+	a, err := readAudit(rr.Dir, "s.txt.stream.copy.final")
+	if err != nil {
+		ctx.Res.Violate(Violation{What: "final output behind a streaming edge has no valid audit file: " + err.Error(), Class: "c10.invalid", Witness: "stream-lineage"})
+		return
+	}
+	chain := []string{"last", "cons", "prod"}
+	keys := []string{"s.txt.stream.copy", "s.txt.stream", "s.txt"}
+	cur := a
+	for k, want := range chain {
+		if cur == nil || cur.ProcessName != want || cur.Command == "" {
+			ctx.Res.Violate(Violation{What: fmt.Sprintf("lineage of s.txt.stream.copy.final: at depth %d the record names process %q (expected %q): the chain back to the source is broken at the streaming edge", k, func() string {
+				if cur == nil {
+					return "<none>"
+				}
+				return cur.ProcessName
+			}(), want), Class: "c10.stream-lineage", Witness: "stream-lineage"})
+			return
+		}
+		cur = cur.Upstream[keys[k]]
 	}
 }
 
